@@ -64,6 +64,8 @@ def fw_model(events, *, keep=("SER", "LVL", "SERVO", "PASS")):
             out.append({"k": "SERVO", "pin": int(f[1]), "mode": "attach", "v": float(f[2]), "t": t})
         elif kind == "PASS":
             out.append({"k": "PASS", "n": int(f[0]), "t": t})
+        elif kind == "LCD" and len(f) > 3 and f[1] == "GLYPH":
+            out.append({"k": "GLYPH", "lcd": int(f[0]), "slot": int(f[2]), "rows": [int(x) for x in f[3].split(",")], "t": t})
         elif kind == "END":
             out.append({"k": "END", "t": t})
     return [e for e in out if e["k"] in keep or e["k"] == "END"]
@@ -89,6 +91,8 @@ def py_model(events, *, keep=("SER", "LVL", "SERVO", "PASS"), final_ms=None):
             out.append({"k": "SERVO", "pin": e[1], "mode": e[2], "v": e[3], "t": t, "nfrac": nfrac})
         elif kind == "PASS":
             out.append({"k": "PASS", "n": e[1], "t": t, "nfrac": nfrac})
+        elif kind == "GLYPH":
+            out.append({"k": "GLYPH", "lcd": e[1], "slot": e[2], "rows": list(e[3]), "t": t, "nfrac": nfrac})
     out.append({"k": "END", "t": t if final_ms is None else final_ms, "nfrac": nfrac})
     return [e for e in out if e["k"] in keep or e["k"] == "END"]
 
@@ -178,6 +182,8 @@ def describe(e: dict | None) -> str:
         return f"SERVO pin{e['pin']} {e['mode']}={e['v']} @{e['t']:.3f}ms"
     if k == "PASS":
         return f"PASS {e['n']} @{e['t']:.3f}ms"
+    if k == "GLYPH":
+        return f"GLYPH lcd{e['lcd']} slot{e['slot']}={e['rows']} @{e['t']:.3f}ms"
     return f"{k} @{e['t']:.3f}ms"
 
 
@@ -221,6 +227,9 @@ def compare(fw, py, *, timing: bool = True, tol_pins=frozenset(), servo_tol: flo
             elif k == "PASS":
                 ok = a["n"] == b["n"]
                 why = "loop pass boundary differs"
+            elif k == "GLYPH":
+                ok = (a["lcd"], a["slot"], a["rows"]) == (b["lcd"], b["slot"], b["rows"])
+                why = "glyph bitmap differs"
             elif k == "END":
                 ok = True
             if ok and timing:
